@@ -1,4 +1,4 @@
 SPECIFICATION Spec
-CONSTANTS Seeds = {1, 2, 3, 4} Damages = {"trunc", "deltok", "duptok", "nasty", "directive", "nest", "many", "funlit", "bytes", "textblock", "unterminated", "none"} Positions = {0, 1, 2, 3, 4, 5, 6, 7, 8, 9} Args = {0, 1, 2, 3, 4, 5, 6, 7, 8, 9, 10, 11, 12, 13, 14, 15, 16, 17, 18, 19, 20, 21, 22, 23, 24, 25, 26, 27, 28, 29, 30, 31, 32, 33, 34, 35, 36, 37, 38, 39, 40, 41, 42, 43, 44, 45, 46, 47, 48, 49, 50, 51, 52, 53, 54, 55, 56, 57, 58, 59} MaxLen = 1 Sim = FALSE
+CONSTANTS Seeds = {1, 2, 3, 4} Damages = {"trunc", "deltok", "duptok", "nasty", "directive", "nest", "many", "funlit", "bytes", "textblock", "unterminated", "anonend", "none"} Positions = {0, 1, 2, 3, 4, 5, 6, 7, 8, 9} Args = {0, 1, 2, 3, 4, 5, 6, 7, 8, 9, 10, 11, 12, 13, 14, 15, 16, 17, 18, 19, 20, 21, 22, 23, 24, 25, 26, 27, 28, 29, 30, 31, 32, 33, 34, 35, 36, 37, 38, 39, 40, 41, 42, 43, 44, 45, 46, 47, 48, 49, 50, 51, 52, 53, 54, 55, 56, 57, 58, 59} MaxLen = 1 Sim = FALSE
 INVARIANT Emit
 CHECK_DEADLOCK FALSE
